@@ -493,6 +493,9 @@ func (e *Exec) freshInput(st *State, name string, t types.Type) Value {
 }
 
 func (e *Exec) unrollBound(fn *ssa.Function, lp *Loop) int {
+	if e.specMode > 0 {
+		return 64 // loops inside spec functions (constant trip counts) are unrolled
+	}
 	if e.inlineAll > 0 && e.specMode == 0 {
 		// bounded stand-in: per-loop bound if one is declared for the callee, else the lemma's bound
 		if sp := e.specs.ForFn(fn); sp != nil && sp.Unroll[lp.ordinal] > 0 {
@@ -686,6 +689,21 @@ func (e *Exec) chanSend(st *State, fr *Frame, x *ssa.Send) { panic(unsupported("
 func (e *Exec) chanRecv(st *State, fr *Frame, x *ssa.UnOp, ch Value) Value {
 	panic(unsupported("channel receive"))
 }
+
+// sliceEmbeddedArray: c.field[:] where field is an array stored by value inside an object. The slice is modelled as a
+// detached copy: reads see the current contents, writes through the slice are NOT reflected in the field (noted).
 func (e *Exec) sliceEmbeddedArray(st *State, fr *Frame, a *PtrV, x *ssa.Slice, get func(ssa.Value, *Term) *Term) Value {
-	panic(unsupported("slicing an array embedded in an object"))
+	l := e.locOf(a)
+	at, ok := l.T.Underlying().(*types.Array)
+	if !ok {
+		panic(unsupported("slicing a non-array object"))
+	}
+	e.note("ASSUMED: writes through a slice of an array field (" + l.Key + ") are not tracked back into the field")
+	av := st.LoadLoc(l).(*ArrV)
+	n := BVConst(uint64(at.Len()), 64)
+	lo, hi := get(x.Low, BVConst(0, 64)), get(x.High, n)
+	e.oblige(st, fr, "safe.slice", x.Pos(), And(BVUle(lo, hi), BVUle(hi, n)))
+	sl := e.newSlice(st, at.Elem(), n, n)
+	st.setArrayOf(at.Elem(), comp{"", scalarSort(at.Elem())}, sl.Arr, av.Data)
+	return &SliceV{Arr: sl.Arr, Off: lo, Len: BVSub(hi, lo), Cap: BVSub(n, lo), Elem: at.Elem()}
 }
